@@ -1,4 +1,5 @@
 import Econf.Lemmas.WriteLemmas
+import Econf.KeyFileOps
 
 /-!
   # C07 – a written configuration reads back identically
@@ -97,5 +98,164 @@ example : ∃ st, parseBytes (tagCfg 0x3d 0x23) (writeBytes exKf) = .ok st ∧
 example : writeBytes exKf = [0x6b, 0x3d, 0x76, 0x0a, 0x20, 0x6d, 0x20, 0x6e, 0x0a, 0x0a, 0x5b, 0x53, 0x5d, 0x0a, 0x23, 0x63, 0x31, 0x0a, 0x23, 0x63, 0x32, 0x0a,
     0x61, 0x3d, 0x22, 0x78, 0x20, 0x79, 0x22, 0x0a, 0x62, 0x3d, 0x20, 0x23, 0x74, 0x0a, 0x0a] := by decide
 
+
+
+
+/-! ### objects built through the setters -/
+
+/-- a key argument with an unambiguous textual form -/
+def Key54 (d c : Byte) (k : Str) : Prop :=
+  k ≠ [] ∧ (∀ ch ∈ k, isText ch = true ∧ isSpace ch = false ∧ ch ≠ d ∧ ch ≠ c ∧ ch ≠ QUOTE) ∧ k.head? ≠ some LBR
+
+/-- a section as the setters store it (after `normGroup`) -/
+def Group54 (c : Byte) (g : Str) : Prop :=
+  g ≠ NONE → g ≠ [] ∧ (∀ ch ∈ g, isText ch = true ∧ ch ≠ c) ∧ ¬(g.head? = some LBR ∧ g.getLast? = some RBR)
+
+/-- a value text with an unambiguous textual form: first line and indented delimiter-free lines -/
+def Val54 (d c : Byte) (v : Str) : Prop :=
+  ∃ (l0 : Str) (conts : List ContLine), v = l0 ++ conts.flatMap (fun l => NL :: l.render) ∧
+    texts l0 ∧ c ∉ l0 ∧ (∀ ch, l0.head? = some ch → isSpace ch = false ∧ ch ≠ QUOTE) ∧
+    (∀ ch, l0.getLast? = some ch → isSpace ch = false) ∧ (conts ≠ [] → l0 ≠ []) ∧
+    ∀ l ∈ conts, l.WF { delim := [d], comment := [c] }
+
+/-- the object is a list of 5.4 entries, none quoted, none with comments (what setters produce) -/
+def Built (d c : Byte) (es : List Entry) : Prop :=
+  ∃ ws : List WEntry, es = ws.map WEntry.toEntry ∧ ∀ w ∈ ws, w.WF d c ∧ w.val.quotes = false ∧ w.ca = none
+
+instance (d c : Byte) (k : Str) : Decidable (Key54 d c k) := by unfold Key54; infer_instance
+instance (c : Byte) (g : Str) : Decidable (Group54 c g) := by unfold Group54; infer_instance
+
+theorem built_nil (d c : Byte) : Built d c [] := ⟨[], rfl, by intro w hw; cases hw⟩
+
+theorem built_append (d c : Byte) (es : List Entry) (g k v : Str) (h : Built d c es)
+    (hk : Key54 d c k) (hg : Group54 c g) (hv : Val54 d c v) :
+    Built d c (es ++ [{ freshEntry g k with value := some v }]) := by
+  obtain ⟨ws, rfl, hws⟩ := h
+  obtain ⟨l0, conts, rfl, h1, h2, h3, h4, h5, h6⟩ := hv
+  refine ⟨ws ++ [{ group := g, key := k, val := .plain l0 conts, cb := none, ca := none, line := 0 }], ?_, ?_⟩
+  · simp [WEntry.toEntry, freshEntry, WVal.value, WVal.quotes]
+  · intro w hw
+    rcases List.mem_append.mp hw with hw | hw
+    · exact hws w hw
+    · simp only [List.mem_singleton] at hw; subst hw
+      exact ⟨⟨hg, hk.1, hk.2.1, hk.2.2, ⟨h1, h2, h3, h4, h5, h6⟩, (by intro t ht; cases ht), (by intro t ht; cases ht)⟩, rfl, rfl⟩
+
+theorem built_setFirst (d c : Byte) (es es' : List Entry) (g k v : Str) (h : Built d c es)
+    (hv : Val54 d c v) (hs : setFirst g k v es = some es') : Built d c es' := by
+  obtain ⟨ws, rfl, hws⟩ := h
+  obtain ⟨l0, conts, rfl, h1, h2, h3, h4, h5, h6⟩ := hv
+  induction ws generalizing es' with
+  | nil => simp [setFirst] at hs
+  | cons w ws ih =>
+    simp only [List.map_cons, setFirst] at hs
+    have hw := hws w (by simp)
+    split at hs
+    · simp only [Option.some.injEq] at hs
+      subst hs
+      refine ⟨{ w with val := .plain l0 conts } :: ws, ?_, ?_⟩
+      · have hq : w.val.quotes = false := hw.2.1
+        unfold WVal.quotes at hq
+        simp [WEntry.toEntry, WVal.value, WVal.quotes, hq]
+      · intro x hx
+        rcases List.mem_cons.mp hx with rfl | hx
+        · refine ⟨⟨hw.1.grp, hw.1.keyNe, hw.1.keyCh, hw.1.keyHead, ⟨h1, h2, h3, h4, h5, h6⟩, hw.1.cb, ?_⟩, rfl, hw.2.2⟩
+          intro t ht
+          have : w.ca = none := hw.2.2
+          rw [this] at ht; cases ht
+        · exact hws x (List.mem_cons_of_mem _ hx)
+    · cases hr : setFirst g k (l0 ++ conts.flatMap (fun l => NL :: l.render)) (ws.map WEntry.toEntry) with
+      | none => rw [hr] at hs; simp at hs
+      | some r =>
+        rw [hr] at hs
+        simp only [Option.map_some, Option.some.injEq] at hs
+        subst hs
+        obtain ⟨ws', hr', hws'⟩ := ih r (fun x hx => hws x (List.mem_cons_of_mem _ hx)) hr
+        exact ⟨w :: ws', by simp [hr'], by
+          intro x hx
+          rcases List.mem_cons.mp hx with rfl | hx
+          · exact hw
+          · exact hws' x hx⟩
+
+
+/-- one setter call with 5.4 arguments keeps the object in 5.4 form (and its tags) -/
+theorem C07_setter_step (d c : Byte) (kf : KeyFile) (g : Option Str) (k v : Str) (h : Built d c kf.entries)
+    (hk : Key54 d c k) (hg : Group54 c (normGroup g)) (hv : Val54 d c v) :
+    Built d c (setValue kf g (some k) (.ok v)).1.entries ∧
+    (setValue kf g (some k) (.ok v)).1.delim = kf.delim ∧ (setValue kf g (some k) (.ok v)).1.comment = kf.comment := by
+  unfold setValue
+  have hke : k.isEmpty = false := by
+    cases k with
+    | nil => exact absurd rfl hk.1
+    | cons a as => rfl
+  simp only [hke, Bool.false_eq_true, if_false]
+  split
+  · refine ⟨?_, rfl, rfl⟩
+    cases hs : setFirst (normGroup g) k v kf.entries with
+    | none => simpa using h
+    | some es' => simp only [Option.getD_some]; exact built_setFirst d c _ _ _ _ _ h hv hs
+  · exact ⟨built_append d c _ _ _ _ h hk hg hv, rfl, rfl⟩
+
+/-- a setter history: (section argument, key, value text) triples -/
+def applySets (kf : KeyFile) (ops : List (Option Str × Str × Str)) : KeyFile :=
+  ops.foldl (fun kf op => (setValue kf op.1 (some op.2.1) (.ok op.2.2)).1) kf
+
+theorem C07_setters (d c : Byte) (kf : KeyFile) (ops : List (Option Str × Str × Str)) (h : Built d c kf.entries)
+    (hops : ∀ op ∈ ops, Group54 c (normGroup op.1) ∧ Key54 d c op.2.1 ∧ Val54 d c op.2.2) :
+    Built d c (applySets kf ops).entries ∧ (applySets kf ops).delim = kf.delim ∧ (applySets kf ops).comment = kf.comment := by
+  induction ops generalizing kf with
+  | nil => exact ⟨h, rfl, rfl⟩
+  | cons op ops ih =>
+    have ho := hops op (by simp)
+    have h1 := C07_setter_step d c kf op.1 op.2.1 op.2.2 h ho.2.1 ho.1 ho.2.2
+    have h2 := ih (setValue kf op.1 (some op.2.1) (.ok op.2.2)).1 h1.1 (fun x hx => hops x (List.mem_cons_of_mem _ hx))
+    simp only [applySets, List.foldl_cons] at h2 ⊢
+    exact ⟨h2.1, h2.2.1.trans h1.2.1, h2.2.2.trans h1.2.2⟩
+
+theorem built_writeOrder (d c : Byte) (es : List Entry) (h : Built d c es) :
+    ∃ ws : List WEntry, writeOrder es = ws.map WEntry.toEntry ∧ ∀ w ∈ ws, w.WF d c := by
+  obtain ⟨ws, rfl, hws⟩ := h
+  refine ⟨ws.filter (fun w => w.toEntry.group == NONE) ++ ws.filter (fun w => w.toEntry.group != NONE), ?_, ?_⟩
+  · unfold writeOrder
+    rw [List.map_append, List.filter_map, List.filter_map]
+    rfl
+  · intro w hw
+    rcases List.mem_append.mp hw with hw | hw
+    · exact (hws w (List.mem_filter.mp hw).1).1
+    · exact (hws w (List.mem_filter.mp hw).1).1
+
+/-- **C07 for setter histories.**  Any object built from `econf_newKeyFile(d, c)` by any sequence of
+    setter calls whose arguments have an unambiguous textual form – group-less and sectioned keys
+    interleaved in any order, sections re-opened, keys overwritten – is written and read back with, for
+    every section, the same keys in the same order with the same values. -/
+theorem C07_built_roundtrip (d c : Byte) (hT : TagsWF d c) (ops : List (Option Str × Str × Str))
+    (hops : ∀ op ∈ ops, Group54 c (normGroup op.1) ∧ Key54 d c op.2.1 ∧ Val54 d c op.2.2) :
+    ∃ st, parseBytes (tagCfg d c) (writeBytes (applySets (newKeyFile d c) ops)) = .ok st ∧
+      ∀ g, (st.entries.map Entry.content).filter (fun x => x.1 == g) =
+           ((applySets (newKeyFile d c) ops).entries.map Entry.content).filter (fun x => x.1 == g) := by
+  have hb := C07_setters d c (newKeyFile d c) ops (built_nil d c) hops
+  obtain ⟨ws, hws, hwf⟩ := built_writeOrder d c _ hb.1
+  have hd : (applySets (newKeyFile d c) ops).delim = d := hb.2.1
+  have hc : (applySets (newKeyFile d c) ops).comment = c := hb.2.2
+  obtain ⟨st, hp, _, hsec⟩ := C07_object (applySets (newKeyFile d c) ops) ws (by rw [hd, hc]; exact hT) hws (by rw [hd, hc]; exact hwf)
+  rw [hd, hc] at hp
+  exact ⟨st, hp, hsec⟩
+
+
+/-- non-vacuity: `set([S], a, 1)`, `set(NULL, k, "v⏎ m")`, `set(S, a, 2)` from `econf_newKeyFile('=', '#')` -/
+example : ∃ st, parseBytes (tagCfg 0x3d 0x23) (writeBytes (applySets (newKeyFile 0x3d 0x23)
+      [(some [0x5b, 0x53, 0x5d], [0x61], [0x31]), (none, [0x6b], [0x76, 0x0a, 0x20, 0x6d]), (some [0x53], [0x61], [0x32])])) = .ok st ∧
+    ∀ g, (st.entries.map Entry.content).filter (fun x => x.1 == g) =
+      ((applySets (newKeyFile 0x3d 0x23) [(some [0x5b, 0x53, 0x5d], [0x61], [0x31]), (none, [0x6b], [0x76, 0x0a, 0x20, 0x6d]),
+        (some [0x53], [0x61], [0x32])]).entries.map Entry.content).filter (fun x => x.1 == g) := by
+  apply C07_built_roundtrip 0x3d 0x23 exTags
+  intro op hop
+  simp only [List.mem_cons, List.not_mem_nil, or_false] at hop
+  rcases hop with rfl | rfl | rfl
+  · exact ⟨by decide, by decide, [0x31], [], rfl, by decide, by decide, by decide, by decide, by decide, (by intro l hl; cases hl)⟩
+  · refine ⟨by decide, by decide, [0x76], [{ indent := [0x20], text := [0x6d], trail := [] }], rfl, by decide, by decide, by decide, by decide, by decide, ?_⟩
+    intro l hl
+    simp only [List.mem_singleton] at hl; subst hl
+    exact ⟨by decide, by decide, by decide, by decide, by decide, by decide⟩
+  · exact ⟨by decide, by decide, [0x32], [], rfl, by decide, by decide, by decide, by decide, by decide, (by intro l hl; cases hl)⟩
 
 end Econf
